@@ -73,7 +73,7 @@ func genHist(t *rapid.T) HCase {
 	}
 	ns := rapid.IntRange(2, 6).Draw(t, "nsteps")
 	for i := 0; i < ns; i++ {
-		st := HStep{Op: rapid.SampledFrom([]string{"newfrom", "merge", "merge", "unpackcfg", "unpack-reused", "unpack-reused"}).Draw(t, "op")}
+		st := HStep{Op: rapid.SampledFrom([]string{"newfrom", "merge", "merge", "unpackcfg", "unpack-reused", "unpack-reused", "merge-config", "merge-config"}).Draw(t, "op")}
 		if i > 0 && rapid.IntRange(0, 2).Draw(t, "again") == 0 {
 			// exactly an earlier call once more
 			prev := c.Steps[rapid.IntRange(0, i-1).Draw(t, "prev")]
@@ -106,6 +106,16 @@ type world struct {
 	srcCfg  *ucfg.Config
 	srcErr  error
 	targets []interface{}
+	// a long-lived configuration used as merge SOURCE by several calls
+	srcB    *ucfg.Config
+	srcBErr error
+}
+
+func (w *world) sourceB() (*ucfg.Config, error) {
+	if w.srcB == nil && w.srcBErr == nil {
+		w.srcB, w.srcBErr = ucfg.NewFrom(w.inB, ucfg.PathSep("."), ucfg.VarExp)
+	}
+	return w.srcB, w.srcBErr
 }
 
 func (w *world) source() (*ucfg.Config, error) {
@@ -146,7 +156,7 @@ func buildInput(tr *gen.Tree, embed []string, iface bool, w *world) (interface{}
 		if sub == nil || sub.K != "obj" {
 			continue
 		}
-		ec, err := ucfg.NewFrom(treeGo(sub, perm, false))
+		ec, err := embeddedConfig(sub, perm, len(w.embedded)%2 == 1)
 		if err != nil {
 			return nil, fmt.Errorf("building the embedded config for %q failed: %v", k, err)
 		}
@@ -160,6 +170,42 @@ func buildInput(tr *gen.Tree, embed []string, iface bool, w *world) (interface{}
 		}
 	}
 	return in, nil
+}
+
+// embeddedConfig builds the configuration of an embedded section. assembled: its object-valued entries are sections
+// that belong to other configurations, where all of them are called "same", adopted here with SetChild under
+// their keys (what a section is called where it came from must not matter).
+func embeddedConfig(sub *gen.Tree, perm []int, assembled bool) (*ucfg.Config, error) {
+	if !assembled {
+		return ucfg.NewFrom(treeGo(sub, perm, false))
+	}
+	plain := gen.Obj()
+	for i, k := range sub.Keys {
+		if sub.Vals[i].K != "obj" {
+			plain.Put(k, sub.Vals[i])
+		}
+	}
+	ec, err := ucfg.NewFrom(treeGo(plain, perm, false))
+	if err != nil {
+		return nil, err
+	}
+	for i, k := range sub.Keys {
+		if sub.Vals[i].K != "obj" {
+			continue
+		}
+		sec, err := ucfg.NewFrom(treeGo(sub.Vals[i], perm, false))
+		if err != nil {
+			return nil, err
+		}
+		donor := ucfg.New()
+		if err := donor.SetChild("same", -1, sec); err != nil {
+			return nil, err
+		}
+		if err := ec.SetChild(k, -1, sec); err != nil {
+			return nil, err
+		}
+	}
+	return ec, nil
 }
 
 func buildOption(s OptSpec) (ucfg.Option, error) {
@@ -222,6 +268,25 @@ func (w *world) run(st HStep) string {
 		if i >= 0 && i < len(w.pool) {
 			opts = append(opts, w.pool[i])
 		}
+	}
+	if st.Op == "merge-config" {
+		return sigOf(func() (interface{}, error) {
+			src, err := w.sourceB()
+			if err != nil {
+				return "source refused", nil
+			}
+			dst, err := ucfg.NewFrom(w.inA, opts...)
+			if err != nil {
+				return "destination refused", nil
+			}
+			merr := uc.Safe("Merge", func() error { return dst.Merge(src, opts...) })
+			// the source reads like before, whatever it was merged into
+			d, derr := uc.Dump(src, ucfg.PathSep("."), ucfg.VarExp)
+			if derr != nil {
+				return []interface{}{errKind(derr), merr != nil}, nil
+			}
+			return []interface{}{d, merr != nil}, nil
+		})
 	}
 	if st.Op == "unpack-reused" {
 		return sigOf(func() (interface{}, error) {
@@ -320,7 +385,7 @@ func runHist(c HCase, r *runlog.R) error {
 
 var subHist = runlog.Register(&runlog.Sub[HCase]{
 	Name:    "reused-arguments",
-	Rule:    "histories of 2-6 calls (NewFrom; NewFrom+Merge; Unpack into a *Config target; Unpack of a long-lived configuration into long-lived targets that capture its sections in *Config fields under default/append/prepend tags, after which the configuration must unpack like a fresh one) over two dotted-key inputs whose object-valued entries may be embedded *Config values, with option lists drawn (subset and order) from a pool of Option values (global and per-field merge policies with plain, dotted and wildcard names, VarExp, a resolver, an Env config); a third of the steps repeat an earlier call exactly. Every step runs with inputs and Option values built once and shared by all steps, and again with freshly built equal arguments: both outcomes (canonical data or error kind) must be equal, repeated calls must repeat their outcome, and the embedded *Config values must still hold their own data afterwards. Non-trivial: at least two steps and the pool holds a per-field option or the input an embedded *Config. Distinct: hash of the case.",
+	Rule:    "histories of 2-6 calls (NewFrom; NewFrom+Merge; Unpack into a *Config target; Merge of a long-lived *Config source (which must read like a fresh one afterwards); Unpack of a long-lived configuration into long-lived targets that capture its sections in *Config fields under default/append/prepend tags, after which the configuration must unpack like a fresh one) over two dotted-key inputs whose object-valued entries may be embedded *Config values, with option lists drawn (subset and order) from a pool of Option values (global and per-field merge policies with plain, dotted and wildcard names, VarExp, a resolver, an Env config); a third of the steps repeat an earlier call exactly. Every step runs with inputs and Option values built once and shared by all steps, and again with freshly built equal arguments: both outcomes (canonical data or error kind) must be equal, repeated calls must repeat their outcome, and the embedded *Config values must still hold their own data afterwards. Non-trivial: at least two steps and the pool holds a per-field option or the input an embedded *Config. Distinct: hash of the case.",
 	Gen:     genHist,
 	Run:     runHist,
 	Journal: true,
